@@ -59,9 +59,22 @@ def ticket (c : Case) : Verdict :=
       let pk := o.getD "pk" "?"
       let dec := o.getD "dec" "?"
       let mutClass := (mutS.splitOn ":").headD "?"
-      let tag := s!"{c.input.getD "kind" "?"},{mutClass},{rot},{if dec = "nil" then "nil" else "state"}"
+      let leg := c.input.getD "leg" "0"
+      let tag := s!"{c.input.getD "kind" "?"},{mutClass},{rot},{if dec = "nil" then "nil" else "state"}{if leg = "0" then "" else ",leg" ++ leg}"
+      -- legacy key: derived key predicted by the model (hash oracle `lh` = seed:sha512)
+      let legacyKey : Option String := match (o.getD "lh" "-").splitOn ":" with
+        | [sd, hh] => match unhex sd, unhex hh with
+          | some sd, some hh =>
+            let Cl := oracle [(sd, hh)] [] []
+            match (KeyCfg.current Cl ⟨some sd, []⟩).2 with
+            | some ks => some (",".intercalate (ks.map keyStr))
+            | none => none
+          | _, _ => none
+        | _ => none
       -- monitors on the implementation's output
       if ik ≠ pk then .propFail tag "TicketKeyFromBytes-differs-from-installed-keys"
+      else if leg = "1" ∧ o.getD "ldec" "?" ≠ "nil" then .propFail tag "ticket-of-replaced-legacy-key-accepted"
+      else if leg = "1" ∧ legacyKey ≠ some (o.getD "lk" "?") then .diff tag s!"lk={legacyKey.getD "none"}"
       else if t2 ≠ t ∧ dec ≠ "nil" then .propFail tag "modified-or-truncated-ticket-accepted"
       else if (rot = "dropfirst" ∨ rot = "disjoint") ∧ dec ≠ "nil" then .propFail tag "ticket-of-unconfigured-key-accepted"
       else if t2 = t ∧ (rot = "same" ∨ rot = "prepend") ∧ (dec ≠ hex sb ∨ o.getD "feq" "?" ≠ "1") then
